@@ -1,6 +1,9 @@
 import LoguruModel.FileSink.OrderLemmas
 import LoguruModel.FileSink.UsableLemmas
 import LoguruModel.FileSink.CompLemmas
+import LoguruModel.FileSink.WatchLemmas
+import LoguruModel.FileSink.RenamePathLemmas
+import LoguruModel.FileSink.RotateUsable
 /-!
 C08 – file sink loses nothing across rotation / compression / retention, even under injected faults.
 Only property theorems and their non-vacuity examples.  Every statement quantifies over ALL
@@ -193,5 +196,206 @@ example :
     let w := run cfg [.write o, .write { o with rot := true }] (start [(.arc (.ren (.base 0) 5 1), .file [99])] [] 0)
     w.written = [1, 0] ∧ w.fs.get (.arc (.ren (.base 0) 5 1)) = some (.arch (.member (.ren (.base 0) 5 1)) [0]) ∧
     w.fs.get (.arc (.ren (.ren (.base 0) 5 1) 6 1)) = some (.file [99]) := by decide +kernel
+
+/-! ### round 5: `watch=True` – the re-open path `_reopen_if_needed` -/
+
+/-- tie G (round 5): the re-open test is `missing or dev differs or ino differs`, the branch closes, re-creates
+the directories and the file in this order, `_create_file` records the identity, `stop()` re-opens (under
+`watch`) before terminating -/
+theorem generated_shape_watch :
+    (∀ a b c, Gen.reopenNeeded a b c = (a || b || c)) ∧
+    Gen.reopenOrder = [.close, .mkdirs, .create] ∧ Gen.createRecordsIdentity = true ∧
+    Gen.stopOrder = [.reopen, .terminate] := by
+  refine ⟨fun a b c => rfl, ?_, ?_, ?_⟩ <;> decide
+
+/-- **watch_never_orphans**: with `watch=True`, after ANY history – logging calls, stops, restarts, the
+environment deleting or replacing the log file between any two calls – and ANY faults, no acknowledged message
+was ever written through a handle whose file is no longer the one the path names.  (The proof runs through
+`Gen.reopenNeeded` / `Gen.reopenOrder` / `Gen.closeOrder`: it is re-checked against the current
+`_reopen_if_needed` and `_close_file`.) -/
+theorem watch_never_orphans (cfg : Cfg) (hw : cfg.watch = true) (ops : List Op) (fs : FS) (faults : List Bool)
+    (nid : Nat) : (run cfg ops (start fs faults nid)).orphaned = [] :=
+  (run_WI cfg hw ops (start fs faults nid) ⟨rfl, fun h => by cases h⟩).1
+
+/-- **watch_no_message_lost**: hence, with `watch=True`, `no_message_lost` holds without its "written through a
+detached handle" escape: every acknowledged message is readable from a file or archive of the directory unless
+retention or the environment deleted the file that held it. -/
+theorem watch_no_message_lost (cfg : Cfg) (hw : cfg.watch = true) (ops : List Op) (fs : FS) (faults : List Bool)
+    (nid : Nat) :
+    let w := run cfg ops (start fs faults nid)
+    ∀ m ∈ w.written, m ∈ w.deleted ∨ Holds w.fs m := by
+  intro w m hm
+  rcases no_message_lost cfg ops fs faults nid m hm with h | h | h
+  · exact Or.inl h
+  · have : w.orphaned = [] := watch_never_orphans cfg hw ops fs faults nid
+    rw [this] at h; cases h
+  · exact Or.inr h
+
+/-- **watch_write_lands_in_named_file**: with `watch=True`, after any history and faults, an acknowledged logging
+call has appended its message to the file that the sink's path names at that moment (the file was re-created
+first if the environment had deleted or replaced it; a rotation in the same call ends with the new file). -/
+theorem watch_write_lands_in_named_file (cfg : Cfg) (hw : cfg.watch = true) (ops : List Op) (fs : FS)
+    (faults : List Bool) (nid : Nat) (o : Orc) (u : Unit) (w' : W)
+    (h : writeBody cfg o (run cfg ops (start fs faults nid)) = (.ok u, w')) :
+    ∃ p e, w'.cur = some p ∧ w'.fs.get p = some e ∧ w'.nextId ∈ e.content := by
+  have := writeBody_watch cfg o hw _ (run_WI cfg hw ops (start fs faults nid) ⟨rfl, fun h => by cases h⟩)
+  rw [h] at this
+  exact this.2
+
+/-- non-vacuity and necessity of `watch`: the environment deletes the file between two calls; with `watch` the
+second message lands in a re-created `app.log`, without it the message is acknowledged but orphaned -/
+example :
+    let o : Orc := { rot := false, clk := 0, ct1 := 5, ct2 := 6, ret := [] }
+    let ops := [Op.write o, .extDelete (.base 0), .write o]
+    let on : Cfg := { hasRot := false, comp := none, hasRet := false, watch := true, nglob := 4 }
+    let off : Cfg := { on with watch := false }
+    (run on ops (start [] [] 0)).fs.get (.base 0) = some (.file [1]) ∧ (run on ops (start [] [] 0)).orphaned = [] ∧
+    (run on ops (start [] [] 0)).written = [1, 0] ∧
+    (run off ops (start [] [] 0)).fs.get (.base 0) = none ∧ (run off ops (start [] [] 0)).orphaned = [1] := by
+  decide +kernel
+
+/-- **sink_usable_after_any_fault_watch**: the usability theorem without its `watch = false` guard – after ANY
+history and faults a logging call during which no fault is injected and no rotation is due is acknowledged,
+whether or not the file has to be re-opened first. -/
+theorem sink_usable_after_any_fault_watch (cfg : Cfg) (ops : List Op) (fs : FS) (faults : List Bool) (nid : Nat)
+    (o : Orc) (hf : (run cfg ops (start fs faults nid)).faults = []) (hr : o.rot = false) :
+    isOk (writeBody cfg o (run cfg ops (start fs faults nid))).1 = true :=
+  write_ok_of_good' cfg o _ hf (never_holds_closed_file cfg ops fs faults nid) hr
+
+example :
+    let o : Orc := { rot := false, clk := 0, ct1 := 5, ct2 := 6, ret := [] }
+    let on : Cfg := { hasRot := true, comp := none, hasRet := false, watch := true, nglob := 4 }
+    let w := run on [Op.write o, .extReplace (.base 0)] (start [] [false, false, false, true] 0)
+    w.faults = [] ∧ isOk (writeBody on o w).1 = true ∧ (writeBody on o w).2.fs.get (.base 0) = some (.file [1]) := by
+  decide +kernel
+
+/-! ### round 5: `generate_rename_path` on path STRINGS (templates regenerated from the format strings) -/
+
+/-- tie G (round 5): the two templates of `generate_rename_path`, as read from the source -/
+theorem generated_rename_templates :
+    Gen.renameFirstTemplate = [.arg 0, .lit ".".toList, .arg 1, .arg 2] ∧
+    Gen.renameLoopTemplate = [.arg 0, .lit ".".toList, .arg 1, .lit ".".toList, .arg 3, .arg 2] ∧
+    Gen.renameFirstCounter = 1 ∧ Gen.renameCounterStep = 1 := by decide
+
+/-- **rename_candidates_distinct**: for every root, date text and extension, distinct counters give distinct
+paths (the first one is the name without counter); this is the fact the abstract model assumes through the
+constructor `Name.ren` (`candidates_injective`), proved here for the real templates and Python's decimal `str(int)`. -/
+theorem rename_candidates_distinct (root date ext : Str) (a b : Nat)
+    (h : candStr root date ext a = candStr root date ext b) : a = b :=
+  candStr_injective root date ext a b h
+
+/-- **generate_rename_path_least_free**: for EVERY set of existing paths (given as a list: any size, any holes in
+the counter sequence, any other names), every root, date and extension, the loop terminates within
+|existing|+1 probes and returns the candidate with the LEAST counter that does not exist: it is not an existing
+path, and every candidate with a smaller counter exists. -/
+theorem generate_rename_path_least_free (existing : List Str) (root date ext : Str) :
+    ∃ k, generateRenamePath existing root date ext = some (candStr root date ext (1 + k)) ∧
+      candStr root date ext (1 + k) ∉ existing ∧ ∀ j, j < k → candStr root date ext (1 + j) ∈ existing := by
+  unfold generateRenamePath
+  cases h : probeLoop (fun s => existing.contains s) (candStr root date ext) (existing.length + 1)
+      Gen.renameFirstCounter with
+  | none =>
+    have hall := probeLoop_none _ _ _ _ h
+    have := pigeonhole_list (candStr root date ext) (candStr_injective root date ext) Gen.renameFirstCounter
+      (existing.length + 1) existing (fun i hi => by simpa using hall i hi)
+    omega
+  | some r =>
+    obtain ⟨k, h1, h2, h3⟩ := probeLoop_some _ _ _ _ r h
+    refine ⟨k, by rw [h1]; rfl, ?_, ?_⟩
+    · have : ¬ (existing.contains (candStr root date ext (1 + k)) = true) := by
+        rw [show (1 + k) = Gen.renameFirstCounter + k from rfl, h2]; simp
+      simpa using this
+    · intro j hj
+      have := h3 j hj
+      simpa [Gen.renameFirstCounter] using this
+
+/-- the returned path is never the path that is about to be renamed (`old_path = root + ext`) -/
+theorem generate_rename_path_not_source (existing : List Str) (root date ext r : Str)
+    (h : generateRenamePath existing root date ext = some r) : r ≠ root ++ ext := by
+  obtain ⟨k, hk, _, _⟩ := generate_rename_path_least_free existing root date ext
+  rw [hk] at h
+  cases h
+  exact candStr_ne_source root date ext _
+
+/-- the loop of the abstract model (`rename_target_fresh`, `genRename_terminates`) is this same loop -/
+theorem code_probe_is_probeLoop (fs : FS) (cand : Nat → Name) :
+    genRename fs cand = probeLoop fs.has cand (fs.length + 1) Gen.renameFirstCounter := by
+  rw [code_probe_is_exists, renameLoopP_eq_probeLoop]
+
+/-- non-vacuity: counters 1, 2 and 4 taken (a hole at 3), unrelated names around, ten and more rotations
+(the counter gains a digit) -/
+example :
+    generateRenamePath ["app.D.log".toList, "app.D.2.log".toList, "app.D.4.log".toList, "app.log".toList,
+        "app.D.3.log.gz".toList] "app".toList "D".toList ".log".toList = some "app.D.3.log".toList ∧
+    generateRenamePath [] "a.b".toList "D".toList [] = some "a.b.D".toList ∧
+    candStr "app".toList "D".toList ".log".toList 10 = "app.D.10.log".toList := by decide +kernel
+
+/-! ### round 5: usability of a call in which a rotation IS due -/
+
+/-- **sink_usable_after_any_fault_rotation**: after ANY history and faults, a logging call during which no fault is
+injected is acknowledged ALSO WHEN A ROTATION IS DUE in it – the whole chain close → new path → same-name rename
+through `generate_rename_path` → compression (collision rename of any chain length, compress, remove the source) →
+retention → new file → write runs through – under two explicit guards: the retention policy deletes nothing in this
+call (`noDel`: what a policy deletes is an oracle of the model), and the file being closed is still in the
+directory (automatic with `watch=True`, where it is re-created first, and when the sink holds no file). -/
+theorem sink_usable_after_any_fault_rotation (cfg : Cfg) (ops : List Op) (fs : FS) (faults : List Bool) (nid : Nat)
+    (o : Orc) (hf : (run cfg ops (start fs faults nid)).faults = [])
+    (hret : cfg.hasRet = false ∨ noDel o.ret = true)
+    (hthere : cfg.watch = true ∨
+      ∀ p, (run cfg ops (start fs faults nid)).cur = some p → (run cfg ops (start fs faults nid)).fs.has p = true) :
+    isOk (writeBody cfg o (run cfg ops (start fs faults nid))).1 = true :=
+  write_ok_rotation_due cfg o _ hf (never_holds_closed_file cfg ops fs faults nid) hret hthere
+
+/-- both guards are needed: (1) without `watch`, after the environment deleted the file, a due same-name rotation
+fails at `get_ctime`; (2) a retention policy that removes a file that is not there fails the call -/
+theorem rotation_guards_needed :
+    let o : Orc := { rot := false, clk := 0, ct1 := 5, ct2 := 6, ret := [] }
+    let cfg : Cfg := { hasRot := true, comp := none, hasRet := true, watch := false, nglob := 4 }
+    let w := run cfg [Op.write o, .extDelete (.base 0)] (start [] [] 0)
+    let w2 := run cfg [Op.write o] (start [] [] 0)
+    isOk (writeBody cfg { o with rot := true } w).1 = false ∧
+    isOk (writeBody cfg { o with rot := true, ret := [.del (.other 9)] } w2).1 = false ∧
+    isOk (writeBody cfg { o with rot := true, ret := [.stat] } w2).1 = true := by decide +kernel
+
+/-- non-vacuity: after a history with a fault, a due rotation with tar compression over a collision chain -/
+example :
+    let o : Orc := { rot := false, clk := 0, ct1 := 5, ct2 := 6, ret := [.stat, .stat] }
+    let cfg : Cfg := { hasRot := true, comp := some (.fmt .add), hasRet := true, watch := true, nglob := 4 }
+    let fs0 : FS := [(.arc (.ren (.base 0) 5 1), .file [70]), (.arc (.ren (.ren (.base 0) 5 1) 6 1), .file [71])]
+    let w := run cfg [Op.write o, .extReplace (.base 0)] (start fs0 [false, false, true] 0)
+    w.faults = [] ∧ isOk (writeBody cfg { o with rot := true } w).1 = true ∧
+    (writeBody cfg { o with rot := true } w).2.fs.get (.arc (.ren (.ren (.base 0) 5 1) 6 2)) = some (.file [70]) := by
+  decide +kernel
+
+/-- **retention_before_new_file**: in every configuration (any rotation / compression / retention, `watch` on or off)
+and for every retention oracle – whatever set of names the policy removes in this call, even the new path's own
+name – a logging call that is acknowledged has appended its message to the file the sink's path names afterwards:
+`_terminate_file` runs retention BEFORE it creates the new file.  Hypothesis: the handle the sink holds (if any) is
+the file its path names (`Landed`; automatic after `add()`, and re-established by `_reopen_if_needed` under `watch`). -/
+theorem retention_before_new_file (cfg : Cfg) (o : Orc) (w w' : W) (u : Unit)
+    (hinv : WI w) (hl : cfg.watch = true ∨ Landed w) (h : writeBody cfg o w = (.ok u, w')) :
+    ∃ p e, w'.cur = some p ∧ w'.fs.get p = some e ∧ w'.nextId ∈ e.content := by
+  have := writeBody_lands cfg o w ⟨hinv, hl⟩
+  rw [h] at this
+  exact this.2
+
+/-- non-vacuity: the retention policy deletes a file that already sits under the NEW path (and the rotated old file);
+the message still lands in the (re-created) new file -/
+example :
+    let o : Orc := { rot := false, clk := 0, ct1 := 5, ct2 := 6, ret := [] }
+    let cfg : Cfg := { hasRot := true, comp := none, hasRet := true, watch := false, nglob := 4 }
+    let w := run cfg [Op.write o] (start [(.base 1, .file [77])] [] 0)
+    let r := writeBody cfg { o with rot := true, clk := 1, ret := [.stat, .del (.base 1), .del (.base 0)] } w
+    WI w ∧ Landed w ∧ isOk r.1 = true ∧ r.2.deleted = [0, 77] ∧ r.2.fs = [(.base 1, .file [1])] := by
+  refine ⟨⟨rfl, fun h => by cases h⟩, ?_, ?_⟩
+  · intro p hp
+    have : p = .base 0 := by
+      have h0 : (run { hasRot := true, comp := none, hasRet := true, watch := false, nglob := 4 }
+        [Op.write { rot := false, clk := 0, ct1 := 5, ct2 := 6, ret := [] }] (start [(.base 1, .file [77])] [] 0)).cur
+          = some (.base 0) := by decide +kernel
+      rw [h0] at hp; cases hp; rfl
+    subst this
+    decide +kernel
+  · decide +kernel
 
 end C08
